@@ -34,6 +34,7 @@ var guardTable = []guardSpec{
 	{"core/rlwe.(Parameters).PiOverflowMargin", []string{"level", "0"}, []token.Token{token.LSS}, []string{"C04", "C19"}, "an evaluation key without P on parameters that have one is at P-level -1: the margin of an empty set of primes is the documented -1, not a panic"},
 	{"core/rlwe.CheckModuli", []string{"AllDistinct"}, nil, []string{"C19"}, "Q and P together are the RNS basis of QP: a prime present in both must be refused (each ring only checks its own chain)"},
 	{"ring.NewRingWithCustomNTT", []string{"AllDistinct(ModuliChain)"}, []token.Token{token.NOT}, []string{"C19", "C01"}, "the moduli of an RNS basis are pairwise distinct (CRT needs coprime moduli): a repeated prime anywhere in the chain is refused"},
+	{"core/rlwe.(Evaluator).InitOutputBinaryOp", []string{"op0.Degree() + op1.Degree()|op1.Degree() + op0.Degree()", "opInTotalMaxDegree"}, nil, []string{"C05", "C06", "C04"}, "the degree bound of a binary operation is on the sum of the operands' degrees (a product of degree 1 x 2 or 2 x 2 must be refused), not on the larger one"},
 	{"core/rlwe.checkSizeParams", []string{"logN", "MaxLogN"}, []token.Token{token.GTR}, []string{"C19"}, "ring degree above the supported maximum"},
 	{"core/rlwe.checkSizeParams", []string{"logN", "MinLogN"}, []token.Token{token.LSS}, []string{"C19"}, "ring degree below the minimum the NTT needs"},
 	{"core/rlwe.checkModuliLogSize", []string{"qi", "MaxModuliSize"}, []token.Token{token.GTR, token.LOR}, []string{"C19"}, "requested Q prime size out of range"},
@@ -117,8 +118,38 @@ func scanGuard(c *core.Ctx) []ob {
 					}
 				}
 			}
+			// locals of the condition are read through their (single) definition: totDegree := op0.Degree() + op1.Degree()
+			ast.Inspect(is.Cond, func(x ast.Node) bool {
+				id, ok := x.(*ast.Ident)
+				if !ok {
+					return true
+				}
+				var defs []string
+				ast.Inspect(fd.Body, func(y ast.Node) bool {
+					as, ok := y.(*ast.AssignStmt)
+					if !ok || len(as.Lhs) != len(as.Rhs) {
+						return true
+					}
+					for i, l := range as.Lhs {
+						if lid, ok := l.(*ast.Ident); ok && lid.Name == id.Name && as.Pos() < is.Pos() {
+							defs = append(defs, exprString(as.Rhs[i]))
+						}
+					}
+					return true
+				})
+				if len(defs) == 1 {
+					cond += " ; " + id.Name + " = " + defs[0]
+				}
+				return true
+			})
 			for _, t := range g.tokens {
-				if !strings.Contains(cond, t) {
+				any := false
+				for _, alt := range strings.Split(t, "|") {
+					if strings.Contains(cond, alt) {
+						any = true
+					}
+				}
+				if !any {
 					return true
 				}
 			}
